@@ -478,9 +478,14 @@ func ruleMergeOrder(c *Ctx, r *Repo, cp *packages.Package) {
 		}
 		// the loop over the collection that merges (there may be an earlier one that only fills in nil entries)
 		var rs *ast.RangeStmt
-		{
-			fc := newFuncCanon(info, fd)
-			ast.Inspect(fd.Body, func(n ast.Node) bool {
+		var holder *ast.FuncDecl
+		for _, g := range familyOf(cp, fd) {
+			if rs != nil {
+				break
+			}
+			g := g
+			fc := newFuncCanon(info, g)
+			ast.Inspect(g.Body, func(n ast.Node) bool {
 				x, ok := n.(*ast.RangeStmt)
 				if !ok || fc.E(x.X) != "RECV."+s.loopMarker {
 					return true
@@ -494,9 +499,13 @@ func ruleMergeOrder(c *Ctx, r *Repo, cp *packages.Package) {
 				})
 				if rs == nil || merges {
 					rs = x
+					holder = g
 				}
 				return true
 			})
+		}
+		if holder != nil {
+			fd = holder // the loop lives in a private helper of the anchored function
 		}
 		if rs == nil {
 			c.Fail("R08.4", s.fn+"|loop", r.Pos(fd.Pos()), "no loop over "+s.loopMarker)
